@@ -29,6 +29,15 @@ def retro_screen_kwargs(rng, flavour=None):
         ar = int(rng.choice([1, 3]))
         kw = gen.realistic_screen_kwargs(rng, n_samples=(1, 5), n_drugs=(3, 6), n_rows=(3, 50), n_plates=(1, 8), p_single=0.2, p_dup=0.2, p_double_control=pdc, observed=observed, plate_per_sample=(flavour == "per_sample"), arity=ar)
         flavour += "-arity%d" % ar
+    if rng.random() < 0.15:
+        # labels the way a lab writes them: longer than anything the library would make up itself
+        kw["plate_names"] = np.array(["2021-03-14_pilot_run_plate_" + str(x) for x in kw["plate_names"]], dtype=str)
+        if rng.random() < 0.5:
+            kw["sample_names"] = np.array(["patient-derived_xenograft_line_" + str(x) for x in kw["sample_names"]], dtype=str)
+        if rng.random() < 0.5:
+            c = kw["control_treatment_name"]
+            kw["treatment_names"] = np.array([[x if x == c else "compound_library_2021_batch7_" + x for x in row] for row in kw["treatment_names"].tolist()], dtype=str).reshape(kw["treatment_names"].shape)
+        flavour += "-long-labels"
     return kw, flavour
 
 
